@@ -149,3 +149,7 @@ def run(ctx: Context) -> None:  # noqa: F811
     ctx.rep.rule('C08.R9', 'Lock / Event / Semaphore are guard-free delegations to ONE underlying primitive created once (thread flavour: in the constructor; async flavour: in the synchronous setup)')
     backend.primitives(ctx, 'C08.R9')
     ctx.rep.explanation = (ctx.rep.explanation or '') + ' R9 (primitives): every lock/event/semaphore operation delegates unconditionally to one underlying primitive that is created exactly once - no check-then-create window in which a set()/release() can miss a waiter.'
+    from . import support
+
+    ctx.rep.rule('C08.R10', 'lazy establishment is a test-and-set under the establishment lock (the `is None` / `not connected` test is evaluated inside the lock region that installs the connection)')
+    support.establish_test_and_set(ctx, 'C08.R10', ('sync',))
